@@ -3,6 +3,7 @@ import CRModel.XsdModel
 import CRModel.XmlNum
 import CRModel.CRXmlW
 import CRModel.CRXmlWDoc
+import CRModel.CRXmlWOk
 import Gen.XsdScenario
 open Lean CR.Drv
 
@@ -285,7 +286,8 @@ def handle (op : String) (a : Json) : P Json := do
     -- the whole document the modelled writer produces from the data, and the model validator's verdict on it
     let d ← docD (← field a "doc")
     let t := CR.XmlW.docNode d
-    pure <| Json.mkObj [("tree", xmlJ t), ("valid", Json.bool (validDoc schema t))]
+    pure <| Json.mkObj [("tree", xmlJ t), ("valid", Json.bool (validDoc schema t)),
+                        ("expressible", Json.bool (decide (CR.C03.Expressible d))), ("why", namesJ (CR.C03.explainDoc d))]
   | "content" =>
     -- does the child-name sequence match the content model of the named type?
     let t ← getStr a "type"
